@@ -121,7 +121,10 @@ class Columns(JupyterMixin):
         table.title = self.title
 
         if self.width is not None:
-            column_count = (max_width) // (self.width + width_padding)
+            # the grid measures the padding of its first column on both sides
+            column_count = max(
+                1, (max_width - min(left, right)) // (self.width + width_padding)
+            )
             for _ in range(column_count):
                 table.add_column(width=self.width)
         else:
